@@ -668,8 +668,26 @@ class PE:
     def ev(self, e: ast.AST, p: Path) -> List[Tuple[V, Path]]:
         m = getattr(self, "ev_" + type(e).__name__, None)
         if m is None:
-            return [(self.sym(ast.unparse(e), e), p)]
+            return [(self.opaque_expr(e, p), p)]
         return m(e, p)
+
+    def opaque_expr(self, e: ast.AST, p: Path) -> Sym:
+        """Opaque value of an expression the evaluator does not model; it conservatively
+        inherits the kinds (taint) of every variable the expression mentions."""
+        inherit = []
+        for n in ast.walk(e):
+            if isinstance(n, ast.Name) and isinstance(n.ctx, ast.Load):
+                v = p.env.get(n.id)
+                if v is None:
+                    for fr in reversed(p.frames):
+                        if not fr.get("__visible__"):
+                            break
+                        if n.id in fr["__env__"]:
+                            v = fr["__env__"][n.id]
+                            break
+                if v is not None:
+                    inherit.append(v)
+        return self.sym(ast.unparse(e), e, inherit)
 
     def ev_Constant(self, e, p):
         return [(Const(e.value), p)]
@@ -696,7 +714,7 @@ class PE:
 
     def ev_Tuple(self, e, p):
         if any(isinstance(x, ast.Starred) for x in e.elts):
-            return [(self.sym(ast.unparse(e), e), p)]
+            return [(self.opaque_expr(e, p), p)]
         return [(Tup(vals), q) for vals, q in self.ev_many(e.elts, p)]
 
     def ev_List(self, e, p):
@@ -823,7 +841,7 @@ class PE:
         return [(self.sym("*" + ast.unparse(e.value), e), p)]
 
     def ev_Lambda(self, e, p):
-        return [(self.sym(ast.unparse(e), e), p)]
+        return [(self.opaque_expr(e, p), p)]
 
     def ev_NamedExpr(self, e, p):
         out = []
@@ -839,14 +857,14 @@ class PE:
         return self._comprehension(e, p, "list")
 
     def ev_SetComp(self, e, p):
-        return [(self.sym(ast.unparse(e), e), p)]
+        return [(self.opaque_expr(e, p), p)]
 
     def ev_DictComp(self, e, p):
-        return [(self.sym(ast.unparse(e), e), p)]
+        return [(self.opaque_expr(e, p), p)]
 
     def _comprehension(self, e, p, kind):
         if len(e.generators) != 1 or e.generators[0].ifs:
-            return [(self.sym(ast.unparse(e), e), p)]
+            return [(self.opaque_expr(e, p), p)]
         g = e.generators[0]
         out = []
         for it, q in self.ev(g.iter, p):
@@ -863,7 +881,7 @@ class PE:
                 vals.append(r[0][0])
             q.env = saved
             if not ok:
-                out.append((self.sym(ast.unparse(e), e), q))
+                out.append((self.opaque_expr(e, q), q))
             else:
                 out.append((Lst(vals, open_, name=f"comp@{e.lineno}"), q))
         return out
